@@ -168,6 +168,9 @@ var evNames = map[simdjson.SimEvent]string{
 }
 
 func hookDispatch(ev simdjson.SimEvent, h simdjson.SimHandle, arg int) {
+	if t := hookTap; t != nil {
+		t(ev, h, arg)
+	}
 	s := curSched.Load()
 	if s == nil {
 		return
